@@ -3,7 +3,7 @@
    (indices + utility rows) recorded from the implementation; the theorem
    derives the user-level property from the mechanism-level conditions. *)
 From Coq Require Import ZArith List Bool.
-From V Require Import Base.OptOrder Model.Sel Model.PoolQuery Proofs.PoolProofs.
+From V Require Import Base.OptOrder Model.Sel Model.PoolQuery Proofs.SelProofs Proofs.PoolProofs Proofs.SkeletonProofs.
 Import ListNotations.
 Close Scope Z_scope.
 
@@ -50,11 +50,28 @@ Proof.
 Qed.
 Print Assumptions C01_labeled_noncandidate_never_selected.
 
+(* the canonical query skeleton (NaN-filled utilities, scores scattered through the mapping,
+   simple_batch) returns a valid batch for EVERY score vector (all tie patterns), every way of
+   giving candidates, every batch size and every positive tie-breaking noise *)
+Theorem C01_skeleton_returns_valid_batch :
+  forall (lab : list bool) (c : cand) (scores : list val) (noises : list (list Z)) (bs : nat),
+  (forall l, c = CIdx l -> Forall (fun i => i < length lab) l) ->
+  length scores = length (cand_set lab c) -> Forall (fun v => is_nan v = false) scores ->
+  noises_ok (ncols lab c) (expected_k bs lab c) noises ->
+  let picks := map fst (skeleton lab c scores noises bs) in
+  length picks = expected_k bs lab c /\ NoDup picks /\ Forall (fun p => In p (cand_set lab c)) picks.
+Proof.
+  intros lab c scores noises bs Hc Hl Hs Hn.
+  exact (skeleton_valid_batch lab c scores noises bs (conj Hl Hs) (cand_wf_all lab c Hc) Hn).
+Qed.
+Print Assumptions C01_skeleton_returns_valid_batch.
+
 (* non-vacuity: a 6-sample pool, two labeled samples, ties among the utilities *)
 Example C01_nonvacuous :
   let lab := [true; false; false; true; false; false] in
   let t := [(2, [None; Some 5; Some 7; None; Some 7; Some 1]%Z);
             (4, [None; Some 5; None; None; Some 7; Some 1]%Z);
             (1, [None; Some 5; None; None; None; Some 1]%Z)] in
-  accepts_pool SelMax lab CNone 3 t = true /\ accepts_pool SelMax lab CNone 5 t = false.
-Proof. vm_compute. split; reflexivity. Qed.
+  accepts_pool SelMax lab CNone 3 t = true /\ accepts_pool SelMax lab CNone 5 t = false /\
+  map fst (skeleton lab (CIdx [4; 1; 4; 5]) [Some 7; Some 7; Some 1]%Z [[1; 2; 3; 4; 5; 6]; [6; 5; 4; 3; 2; 1]]%Z 2) = [4; 1].
+Proof. vm_compute. repeat split; reflexivity. Qed.
